@@ -883,3 +883,148 @@ func (c *Ctx) ruleDiscType(rule string) {
 		c.R.Unresolved(rule, "store under the discriminator key")
 	}
 }
+
+// R-DISCPRESENT: the map a one-of hands back carries the discriminator on every accepting path.
+//   Unserialize side (the map comes from the member's Unserialize): the typed discriminator is STORED on every path -
+//     a store only "if the member did not produce one" leaves the member's own value there, which has the member's
+//     type (a named string of a typed enum), not the key type Validate / Serialize assert.
+//   Serialize side (the map comes from the member's Serialize): on every path the discriminator was stored or found
+//     present by a comma-ok lookup - a store conditional on the inlining flag omits it when an inlined member did not
+//     emit its optional discriminator property, and the result cannot be routed back.
+func (c *Ctx) ruleDiscPresent(rule string) {
+	n := 0
+	for _, fn := range c.M.SortedFuncs(c.scopePkg("schema")) {
+		if !strings.HasPrefix(c.M.Key(fn), "schema.OneOfSchema.") {
+			continue
+		}
+		ei := core.ErrorResultIndex(fn.Signature)
+		if ei < 0 {
+			continue
+		}
+		cnt := 0
+		for _, r := range core.ReturnsOf(fn) {
+			if len(r.Results) < 2 || c.M.ProvablyNonNilError(core.RetVal(r, ei), r.Block()) {
+				continue
+			}
+			m := core.Unwrap(core.RetVal(r, 0))
+			if _, isMap := m.Type().Underlying().(*types.Map); !isMap {
+				continue
+			}
+			side := memberCallOf(m, 0)
+			if side == "" {
+				continue
+			}
+			n++
+			cnt++
+			isDiscKey := func(k ssa.Value) bool {
+				return strings.HasSuffix(c.M.ValPath(k), ".DiscriminatorFieldNameValue")
+			}
+			gen := func(b *ssa.BasicBlock) bool {
+				for _, in := range b.Instrs {
+					if mu, ok := in.(*ssa.MapUpdate); ok && mu.Map == m && isDiscKey(mu.Key) {
+						return true
+					}
+				}
+				return false
+			}
+			est := func(cond core.Cond) bool {
+				if side != "Serialize" || !cond.True {
+					return false
+				}
+				tup, ok := core.CommaOk(cond.V)
+				if !ok {
+					return false
+				}
+				lk, ok := tup.(*ssa.Lookup)
+				return ok && lk.X == m && isDiscKey(lk.Index)
+			}
+			k := key(rule, c.M.Key(fn), sprintf("accepting return #%d of the member's %s result carries the discriminator", cnt, side))
+			if mustHoldGen(fn, est, gen)[r.Block()] || gen(r.Block()) {
+				how := "the typed discriminator is stored under the discriminator key on every path"
+				if side == "Serialize" {
+					how = "on every path the discriminator was stored, or found present by a comma-ok lookup"
+				}
+				c.R.Ok(rule, k, c.M.InstrPos(r), "map handed back by a one-of", how)
+			} else if side == "Unserialize" {
+				c.R.Bad(rule, k, c.M.InstrPos(r), "a path returns the member's map without storing the typed discriminator",
+					"the member may have produced its own discriminator value (an inlined discriminator declared as a typed enum yields a named string); Validate and Serialize assert the one-of's key type and reject the value Unserialize just returned")
+			} else {
+				c.R.Bad(rule, k, c.M.InstrPos(r), "a path returns the member's serialized map without a discriminator",
+					"an inlined member omits an optional discriminator property that is unset; without the discriminator the serialized form cannot be routed by Unserialize")
+			}
+		}
+	}
+	if n == 0 {
+		c.R.Unresolved(rule, "returns of a member's map in the one-of's methods")
+	}
+}
+
+// memberCallOf: v is (an assertion on) the result of an interface call Unserialize / Serialize: the method name.
+func memberCallOf(v ssa.Value, depth int) string {
+	if depth > 5 {
+		return ""
+	}
+	switch x := v.(type) {
+	case *ssa.Extract:
+		return memberCallOf(x.Tuple, depth+1)
+	case *ssa.TypeAssert:
+		return memberCallOf(x.X, depth+1)
+	case *ssa.Call:
+		if x.Call.IsInvoke() {
+			switch x.Call.Method.Name() {
+			case "Unserialize", "Serialize":
+				return x.Call.Method.Name()
+			}
+		}
+	}
+	return ""
+}
+
+// mustHoldGen is core.MustHold with block-level generators: a fact holds at the entry of b when, for every predecessor,
+// it held at its entry, or the predecessor generates it, or the edge establishes it.
+func mustHoldGen(fn *ssa.Function, est func(core.Cond) bool, gen func(*ssa.BasicBlock) bool) map[*ssa.BasicBlock]bool {
+	in := map[*ssa.BasicBlock]bool{}
+	if len(fn.Blocks) == 0 {
+		return in
+	}
+	for _, b := range fn.Blocks {
+		in[b] = true
+	}
+	in[fn.Blocks[0]] = false
+	edge := func(p, b *ssa.BasicBlock) bool {
+		if len(p.Instrs) == 0 {
+			return false
+		}
+		ifi, ok := p.Instrs[len(p.Instrs)-1].(*ssa.If)
+		if !ok || p.Succs[0] == p.Succs[1] {
+			return false
+		}
+		v := ifi.Cond
+		truth := p.Succs[0] == b
+		for {
+			u, ok := v.(*ssa.UnOp)
+			if !ok || u.Op != token.NOT {
+				break
+			}
+			v = u.X
+			truth = !truth
+		}
+		return est(core.Cond{V: v, True: truth})
+	}
+	for changed := true; changed; {
+		changed = false
+		for _, b := range fn.Blocks {
+			if b == fn.Blocks[0] || !in[b] {
+				continue
+			}
+			for _, p := range b.Preds {
+				if !(in[p] || gen(p) || edge(p, b)) {
+					in[b] = false
+					changed = true
+					break
+				}
+			}
+		}
+	}
+	return in
+}
